@@ -22,7 +22,7 @@ def run(repo, tier) -> Result:
     check_conversion_typestate("C11", res, repo)
     check_resume("C11", res, repo.method("hexital.core.candlestick_type", "CandlestickType", "_find_conv_index"), "candles", "tag")
     check_merge("C11", res, repo)
-    check_tasks_order("C11", res, repo)
+    check_tasks_order("C11", res, repo, need=(("collapse", "convert"), ("convert", "trim")))
     check_append_order("C11", res, repo)
     # the candlestick type object is shared by every manager of a Hexital: it must stay stateless
     eff = Effects(repo)
